@@ -87,7 +87,7 @@ func c16Sigma() []c16Str {
 	add("4-byte", "\U0001D518", "\U00010348", "\U0010FFFF", "\U00020000", "\U0001D518\U0001D518")
 	add("special-cp", "\uFFFD", "\uFFFE", "\uFFFF", "\uE000", "\u2028", "\u2029", "\u0085")
 	add("control", "\x01", "\x1b[31m", "\x1f", "\x7f", "a\x08")
-	add("uuid-like", "00000000-0000-0000-0000-000000000000", "6ba7b810-9dad-11d1-80b4-00c04fd430c8", "6BA7B810-9DAD-11D1-80B4-00C04FD430C8")
+	add("uuid-like", "00000000-0000-0000-0000-000000000000", "6ba7b810-9dad-11d1-80b4-00c04fd430c8", "6BA7B810-9DAD-11D1-80B4-00C04FD430C8", "{6ba7b810-9dad-11d1-80b4-00c04fd430c8}", "urn:uuid:6ba7b810-9dad-11d1-80b4-00c04fd430c8", "6ba7b8109dad11d180b400c04fd430c8")
 	add("combining", "\u0301", "a\u0301\u0301", "\u0E01\u0E34\u0E48", "Z\u0351\u036B\u0343")
 	long := strings.Repeat("a", 10240)
 	add("long", strings.Repeat("a", 255), strings.Repeat("a", 256), strings.Repeat("a", 257), long, long[:10239]+"b", long+"a", strings.Repeat("\U0001F600", 2560), strings.Repeat("\u00E9", 3413))
